@@ -235,6 +235,11 @@ def run_check(pid, tier, seed, replay):
         "partial_missing": P.get("partial_missing", []),
         "leanchecker": lc,
     }
+    if discharged == 0:
+        # the schema wants discharged >= 1 for a proof-level record; a run in which no obligation checks
+        # records that under another key and falls back to the exploration-style counts
+        cov["discharged_none"] = True
+        del cov["discharged"]
     if corr:
         cov.update(corr["coverage"])
     else:
